@@ -1,3 +1,4 @@
+import Oidc.Shapes
 import Oidc.Proofs.Jwt
 import Oidc.Facts
 /-! # C02 — ID-token verification accepts exactly the correctly signed, in-time tokens (property theorems only)
@@ -120,5 +121,20 @@ example : accept exF "i" "c" [⟨"k", .rsa⟩] 490 exT = true := by decide
 example : accept exF "i" "c" [⟨"k", .rsa⟩] 489 exT = false := by decide
 example : accept exF "i" "c" [⟨"k", .ec⟩] 600 exT = false := by decide
 example : accept exF "i" "c" [⟨"k", .rsa⟩] 600 { exT with nbf := some (.str "x") } = false := by decide
+
+/-! obligations against the regenerated program text: the functions these theorems rest on read, statement for statement, as
+    they did when the model was written after them (`Oidc/Shapes.lean`) -/
+theorem text_parseJWT_ok : Oidc.Shapes.Text_parseJWT := by unfold Oidc.Shapes.Text_parseJWT; rfl
+theorem text_JWT_Verify_ok : Oidc.Shapes.Text_JWT_Verify := by unfold Oidc.Shapes.Text_JWT_Verify; rfl
+theorem text_verifyAudience_ok : Oidc.Shapes.Text_verifyAudience := by unfold Oidc.Shapes.Text_verifyAudience; rfl
+theorem text_verifyIssuer_ok : Oidc.Shapes.Text_verifyIssuer := by unfold Oidc.Shapes.Text_verifyIssuer; rfl
+theorem text_verifyTimeConstraint_ok : Oidc.Shapes.Text_verifyTimeConstraint := by unfold Oidc.Shapes.Text_verifyTimeConstraint; rfl
+theorem text_verifyExpiration_ok : Oidc.Shapes.Text_verifyExpiration := by unfold Oidc.Shapes.Text_verifyExpiration; rfl
+theorem text_verifyIssuedAt_ok : Oidc.Shapes.Text_verifyIssuedAt := by unfold Oidc.Shapes.Text_verifyIssuedAt; rfl
+theorem text_verifyNotBefore_ok : Oidc.Shapes.Text_verifyNotBefore := by unfold Oidc.Shapes.Text_verifyNotBefore; rfl
+theorem text_verifySignature_ok : Oidc.Shapes.Text_verifySignature := by unfold Oidc.Shapes.Text_verifySignature; rfl
+theorem text_JWKCache_GetJWKS_ok : Oidc.Shapes.Text_JWKCache_GetJWKS := by unfold Oidc.Shapes.Text_JWKCache_GetJWKS; rfl
+theorem text_jwkToPEM_ok : Oidc.Shapes.Text_jwkToPEM := by unfold Oidc.Shapes.Text_jwkToPEM; rfl
+theorem text_TraefikOidc_VerifyJWTSignatureAndClaims_ok : Oidc.Shapes.Text_TraefikOidc_VerifyJWTSignatureAndClaims := by unfold Oidc.Shapes.Text_TraefikOidc_VerifyJWTSignatureAndClaims; rfl
 
 end Oidc.Props.C02
